@@ -31,6 +31,7 @@ type Frame struct {
 
 type loopVisit struct {
 	measure *Term
+	snap    *State // the state at the head of the iteration (after havoc and assumptions), for prev()
 }
 
 type Obligation struct {
@@ -134,6 +135,7 @@ type Exec struct {
 	retPos           token.Pos
 	pruned           int
 	qn               int
+	lastLocalMods    []*Loc
 }
 
 type unsupported struct{ msg string }
